@@ -19,7 +19,7 @@ for d in sorted(glob.glob(os.path.join(V, "seeded", "*"))):
         tag = ""
     n += 1
     rows.append("| %s | %s | %s%s |" % (sid, summ, ", ".join(m.get("caught_by", [])), tag))
-table = "| seed | what the change does | caught by |\n|---|---|---|\n" + "\n".join(rows) + "\n\nTotals: %d seeds; %d caught by the checks as they stood when the seed arrived; %d caught after a check was strengthened following a miss; %d where the check was strengthened after reading the sub-agent's summary and before the first run (third wave).\n" % (n, n - first - pre, first, pre)
+table = "| seed | what the change does | caught by |\n|---|---|---|\n" + "\n".join(rows) + "\n\nTotals: %d seeds; %d caught by the checks as they stood when the seed arrived; %d caught after a check was strengthened following a miss; %d where the check was strengthened after reading the sub-agent's summary and before the first run (third and eighth waves).\n" % (n, n - first - pre, first, pre)
 p = os.path.join(V, "DESIGN.md")
 s = open(p).read()
 a = s.index("<!-- SEEDTABLE:BEGIN -->"); b = s.index("<!-- SEEDTABLE:END -->"); s = s[:a] + "<!-- SEEDTABLE:BEGIN -->\n" + table + s[b:]
